@@ -71,6 +71,11 @@ type Op struct {
 	// APUserSig deleted and re-created under the same name (new uid / creation time, same spec) and
 	// delivered as ONE update (the work queue is keyed by kind+name): marker for the statistics only
 	Recreate bool `json:"recreate,omitempty"`
+	// > 0: this delete is part of the clean-up of a namespace that stops being watched (all stored
+	// APPolicy, APLogConf, APUserSig of the namespace, consecutive ops with the same group id).  The
+	// Configuration-level runs perform the deletes one by one; the controller run performs the group
+	// as ONE call of the real cleanupUnwatchedAppWafResources.
+	Unwatch int `json:"unwatch,omitempty"`
 	// oracle: verdict of the real validator on the object built from this op (filled by run)
 	Valid bool `json:"valid"`
 }
@@ -525,11 +530,19 @@ func probeVariant(l *slog.Logger) bool {
 	return err == nil
 }
 
-// CtlStep is what the user-signature folder looks like after one WAF operation went through the
-// controller: the sets index.conf lists and the files that exist, as namespace/name keys.
+// CtlStep is what the controller path shows after one WAF operation: M = 0 a single operation,
+// 1 = inside a namespace clean-up (nothing observed yet), 2 = the clean-up is complete;
+// Ld / Fl the sets index.conf lists and the files that exist (namespace/name); Pa the APPolicy
+// answers of the controller's Configuration over the key universe; Pp the APPolicy keys that
+// processed changes asked about and Rj the Rejected events ("R<kind>:<key>") since the last
+// observed step.
 type CtlStep struct {
+	M  int      `json:"m"`
 	Ld []string `json:"ld"`
 	Fl []string `json:"fl"`
+	Pa string   `json:"pa"`
+	Pp []string `json:"pp"`
+	Rj []string `json:"rj"`
 }
 
 type CtlObs struct {
@@ -547,44 +560,101 @@ func fileKeys(fs []string) []string {
 	return out
 }
 
+func rejected(evs []string) []string {
+	out := []string{}
+	for _, e := range evs {
+		parts := strings.SplitN(e, "|", 3)
+		if len(parts) < 3 || parts[0] != "Rejected" {
+			continue
+		}
+		kk := strings.SplitN(parts[1], ":", 2)
+		d := map[string]string{"APPolicy": "0", "APLogConf": "1", "APUserSig": "2"}[kk[0]]
+		if d == "" || len(kk) < 2 {
+			continue
+		}
+		out = append(out, "R"+d+":"+kk[1])
+	}
+	sort.Strings(out)
+	return out
+}
+
 // runCtl drives the WAF operations of the history (in the generated order) through the real
-// controller path: APUserSig events through syncAppProtectUserSig (store + work item), APPolicy /
-// APLogConf directly into the controller's appprotect.Configuration.
+// controller path: APUserSig events through syncAppProtectUserSig (cache + work item), APPolicy /
+// APLogConf into the cache and straight into the controller's appprotect.Configuration, and every
+// namespace clean-up group through one call of the real cleanupUnwatchedAppWafResources.
 func runCtl(c *Case) (co CtlObs) {
 	defer func() {
 		if r := recover(); r != nil {
 			co.Panic = fmt.Sprint(r)
 		}
 	}()
-	v := k8s.VerifC19New()
-	for idx := range c.Hist {
+	repo := os.Getenv("VERIF_REPO")
+	if repo == "" {
+		repo = "/repo"
+	}
+	v, err := k8s.VerifC19New(nss, c.WKeys, repo)
+	if err != nil {
+		co.Panic = err.Error()
+		return co
+	}
+	observe := func(mode int) CtlStep {
+		var b strings.Builder
+		for _, k := range c.WKeys {
+			b.WriteByte(wafAnswer(v.Config(), "APPolicy", k))
+		}
+		asked := v.TakeAsked()
+		if asked == nil {
+			asked = []string{}
+		}
+		return CtlStep{M: mode, Ld: fileKeys(v.Loaded()), Fl: fileKeys(v.Files()), Pa: b.String(), Pp: asked, Rj: rejected(v.TakeEvents())}
+	}
+	for idx := 0; idx < len(c.Hist); idx++ {
 		op := &c.Hist[idx]
 		if op.K > 2 {
 			continue
 		}
 		key := op.Ns + "/" + op.Name
+		if op.Unwatch > 0 {
+			// the whole group at once
+			last := idx
+			for last+1 < len(c.Hist) && c.Hist[last+1].Unwatch == op.Unwatch {
+				last++
+			}
+			v.Unwatch(op.Ns)
+			for j := idx; j <= last; j++ {
+				co.Order = append(co.Order, j)
+				if j < last {
+					co.Steps = append(co.Steps, CtlStep{M: 1, Ld: []string{}, Fl: []string{}, Pp: []string{}, Rj: []string{}})
+				} else {
+					co.Steps = append(co.Steps, observe(2))
+				}
+			}
+			idx = last
+			continue
+		}
+		var obj *unstructured.Unstructured
+		if !op.Del {
+			obj = buildUnstructured(op)
+		}
+		v.Store(op.K, op.Ns, key, obj)
 		switch op.K {
 		case 0:
 			if op.Del {
 				v.Config().DeletePolicy(key)
 			} else {
-				v.Config().AddOrUpdatePolicy(buildUnstructured(op))
+				v.Config().AddOrUpdatePolicy(obj)
 			}
 		case 1:
 			if op.Del {
 				v.Config().DeleteLogConf(key)
 			} else {
-				v.Config().AddOrUpdateLogConf(buildUnstructured(op))
+				v.Config().AddOrUpdateLogConf(obj)
 			}
 		case 2:
-			if op.Del {
-				v.SyncUserSig(key, nil)
-			} else {
-				v.SyncUserSig(key, buildUnstructured(op))
-			}
+			v.SyncUserSig(key)
 		}
 		co.Order = append(co.Order, idx)
-		co.Steps = append(co.Steps, CtlStep{Ld: fileKeys(v.Loaded()), Fl: fileKeys(v.Files())})
+		co.Steps = append(co.Steps, observe(0))
 	}
 	if co.Order == nil {
 		co.Order, co.Steps = []int{}, []CtlStep{}
@@ -696,6 +766,7 @@ func genHistory(r *vh.Rng, id int, malformed bool, family int) Case {
 	L := 4 + r.Intn(22)
 	incs := map[string]*inc{}
 	counter := 0
+	gid := 0
 	tags := []string{"t1", "t1", "t1", "t2", "t2", "t3"}
 	for i := 0; i < L; i++ {
 		op := Op{Ns: vh.Pick(r, nss), Name: vh.Pick(r, names)}
@@ -727,6 +798,24 @@ func genHistory(r *vh.Rng, id int, malformed bool, family int) Case {
 		}
 		if family == 2 && op.K == 5 && r.Chance(2, 3) {
 			op.Ns = "n1"
+		}
+		if family != 2 && r.Chance(7, 100) {
+			// the namespace stops being watched: every stored APPolicy, APLogConf, APUserSig of it goes
+			ns := vh.Pick(r, nss)
+			gid++
+			n := 0
+			for _, kd := range []int{0, 1, 2} {
+				for _, nm := range names {
+					if e := incs[fmt.Sprintf("%d|%s/%s", kd, ns, nm)]; e != nil && e.exists {
+						e.exists, e.last = false, nil
+						c.Hist = append(c.Hist, Op{K: kd, Del: true, Ns: ns, Name: nm, Unwatch: gid})
+						n++
+					}
+				}
+			}
+			if n > 0 {
+				continue
+			}
 		}
 		ik := fmt.Sprintf("%d|%s/%s", op.K, op.Ns, op.Name)
 		st := incs[ik]
@@ -933,12 +1022,23 @@ func corpus() []Case {
 	sigBbad.WF = false
 	c4 := mk(4, "corpus-last-set-gone", []Op{sig, delA, sigB, sigBbad})
 	c4.Perms = [][]int{{2, 0, 1, 3}}
+	// namespace n2 holds two signature sets with different tags, each required by one policy of n1;
+	// n2 stops being watched: both policies become unusable and both must be reported
+	sg1 := Op{K: 2, Ns: "n2", Name: "a", UID: "ba-7", TS: tpool[0], WF: true, HasTag: true, Tag: "t1"}
+	sg2 := Op{K: 2, Ns: "n2", Name: "b", UID: "bb-8", TS: tpool[0], WF: true, HasTag: true, Tag: "t2"}
+	pl1 := Op{K: 0, Ns: "n1", Name: "a", WF: true, ReqsKind: 2, Reqs: []Req{{HasTag: true, Tag: "t1"}}}
+	pl2 := Op{K: 0, Ns: "n1", Name: "b", WF: true, ReqsKind: 2, Reqs: []Req{{HasTag: true, Tag: "t2"}}}
+	un1 := Op{K: 2, Del: true, Ns: "n2", Name: "a", Unwatch: 1}
+	un2 := Op{K: 2, Del: true, Ns: "n2", Name: "b", Unwatch: 1}
+	c5 := mk(5, "corpus-unwatch-namespace", []Op{sg1, sg2, pl1, pl2, un1, un2})
+	c5.Perms = [][]int{{2, 3, 0, 1, 5, 4}}
 	return []Case{
 		mk(0, "corpus-revtime", []Op{sig, pol}),
 		mk(1, "corpus-delete-absent", []Op{sig, delAbsent}),
 		c2,
 		c3,
 		c4,
+		c5,
 	}
 }
 
